@@ -16,7 +16,7 @@ RULE = ("same inputs as C17 (generated canonical trees + every documented catalo
 ASSUMPTIONS = ["vf/parse_latex.py reading rules (documented in its docstring)",
                "constructs the reader does not cover (Bessel/Hermite, matrices beyond entrywise, nabla^2) are inconclusive"]
 N = c17.N
-MIN_REACH = {"quick": {"generated_decided": 3000, "catalogue_decided": 500, "modules_rendered": 500},
+MIN_REACH = {"quick": {"generated_decided": 3000, "catalogue_decided": 500, "modules_rendered": 500, "product_chains_decided": 300},
              "thorough": {"generated_decided": 60000, "catalogue_decided": 500}}
 SHARD_TIMEOUT = c17.SHARD_TIMEOUT
 plan = c17.plan
